@@ -1345,6 +1345,27 @@ def gen_C14(rng, tier):
                 return 'forging harness found no bit decomposition to attack (gadget layout changed?)'
             return None
         return orc
+    # single-variable mutation attack (harness `mutate`): no witness allocated inside a gadget may be replaceable by
+    # another value with all constraints still satisfiable and a different output
+    def omut(out, bld):
+        m = re.match(r'honest=1 vars=(\d+) tried=(\d+) free_same_output=(\d+) accepted_other_output=(\d+) stuck=(\d+)', out)
+        if not m:
+            return 'mutation harness: ' + out[:120]
+        if int(m.group(4)):
+            return 'a witness inside the gadget can be replaced by another value, all constraints stay satisfiable and the OUTPUT changes: ' + out[out.find(';') + 1:][:200]
+        if int(m.group(2)) == 0:
+            return 'mutation harness tried nothing'
+        return None
+    mel = [h32(sv) for sv in encs[:4 if tier == 'quick' else 12]]
+    for i, e_ in enumerate(mel):
+        cases.append(Case('g.mutate gadget=compress e=%s' % e_, builds=R, cls='mutate:compress', oracle=omut, nomodel=True))
+        cases.append(Case('g.mutate gadget=decompress s=%s' % e_, builds=R, cls='mutate:decompress', oracle=omut, nomodel=True))
+        cases.append(Case('g.mutate gadget=add a=%s b=%s' % (e_, mel[(i + 1) % len(mel)]), builds=R, cls='mutate:add', oracle=omut, nomodel=True))
+        cases.append(Case('g.mutate gadget=sub a=%s b=%s' % (e_, e_), builds=R, cls='mutate:sub', oracle=omut, nomodel=True))
+        cases.append(Case('g.mutate gadget=scalarmul a=%s bits=%s' % (e_, ''.join(rng.choice('01') for _ in range(6))), builds=R, cls='mutate:scalarmul', oracle=omut, nomodel=True))
+    for x in fvals[:6 if tier == 'quick' else 30]:
+        cases.append(Case('g.mutate gadget=elligator r0=%s' % h32(x), builds=R, cls='mutate:elligator', oracle=omut, nomodel=True))
+        cases.append(Case('g.mutate gadget=abs x=%s' % h32(x), builds=R, cls='mutate:abs', oracle=omut, nomodel=True))
     small = [v for v in fvals + [0, 1, 2, 3, 12345, (1 << 253) - q - 1, (1 << 253) - q - 2] if v + q < (1 << 253)]
     for x in small[:12 if tier == 'quick' else 60]:
         for gname in ('isnonneg', 'isneg', 'abs'):
